@@ -210,3 +210,45 @@ def as_int(v):
 
 def bounds_tuple(b):
     return (int(b.lower), int(b.upper))
+
+
+def feasible_mask(rws, pts):
+    """pts: list of integer tuples (columns in polyhedron order). Returns list of bools (all rows hold).
+    Vectorised with int64 only when |a|*|x| sums provably stay below 2^62, else Python ints."""
+    import numpy as np
+    if not pts:
+        return []
+    ncol = len(pts[0])
+    amax = max([abs(a) for _, row in rws for a in row] + [1])
+    bmax = max([abs(b) for b, _ in rws] + [1])
+    xmax = max([abs(v) for p in pts for v in p] + [1])
+    if amax * xmax * max(ncol, 1) < 2 ** 62 and bmax < 2 ** 62:
+        A = np.array([row for _, row in rws], dtype=np.int64).reshape(len(rws), ncol)
+        b = np.array([b for b, _ in rws], dtype=np.int64)
+        X = np.array(pts, dtype=np.int64).reshape(len(pts), ncol)
+        return ((X @ A.T) >= b).all(axis=1).tolist()
+    return [all_rows_hold(rws, p) for p in pts]
+
+
+def milp_points(rws, bounds, objectives):
+    """Candidate integer points from scipy's exact MILP (HiGHS): maximise each objective over
+    {x integer in bounds : A x >= b}. Returned points are rounded; the CALLER must re-verify exactly."""
+    import numpy as np
+    from scipy.optimize import milp, LinearConstraint, Bounds as SB
+    ncol = len(bounds)
+    if not rws:
+        return []
+    A = np.array([row for _, row in rws], dtype=float).reshape(len(rws), ncol)
+    b = np.array([b for b, _ in rws], dtype=float)
+    cons = LinearConstraint(A, lb=b, ub=np.inf)
+    bnd = SB([lo for lo, _ in bounds], [hi for _, hi in bounds])
+    out = []
+    for c in objectives:
+        try:
+            r = milp(c=-np.array(c, dtype=float), constraints=cons, integrality=np.ones(ncol), bounds=bnd,
+                     options={"time_limit": 5.0})
+        except Exception:
+            continue
+        if r is not None and r.x is not None:
+            out.append(tuple(int(round(v)) for v in r.x))
+    return out
